@@ -357,6 +357,48 @@ pub struct World {
     sched_notify: Notify,
     pub root: Utf8PathBuf,
     live: bool,
+    /// wall-clock guard (the one real-time element inside a run): healthy 200 ms ticks of the
+    /// process-wide ticker thread seen by this run, the flag it raises, and the wake-ups
+    guard_ticks: std::sync::atomic::AtomicU64,
+    guard_abort: std::sync::atomic::AtomicBool,
+    guard_notify: Notify,
+}
+
+/// ticks (200 ms each, stalls of the whole process not counted) after which a run that has not
+/// ended by itself is cut: virtual time stands still in a livelock, so nothing inside the
+/// simulation would ever end it
+const GUARD_TICKS: u64 = 25;
+/// once a run of this process has been cut, later runs are cut sooner (a tree that livelocks does so
+/// in many runs; each would cost five seconds)
+const GUARD_TICKS_AFTER_A_CUT: u64 = 8;
+static GUARD_CUTS: std::sync::atomic::AtomicU64 = std::sync::atomic::AtomicU64::new(0);
+
+/// one thread per process ticks every world in progress; a run is only disturbed (one wake-up of its
+/// guard task) when it is already older than any healthy run
+fn start_ticker() {
+    static T: std::sync::Once = std::sync::Once::new();
+    T.call_once(|| {
+        std::thread::spawn(|| {
+            let mut last = std::time::Instant::now();
+            loop {
+                std::thread::sleep(std::time::Duration::from_millis(200));
+                let dt = last.elapsed().as_millis() as u64;
+                last = std::time::Instant::now();
+                if dt > 700 {
+                    continue; // the whole process was stalled: no tick
+                }
+                let worlds: Vec<Arc<World>> = LIVE_WORLDS.lock().unwrap().iter().filter_map(|w| w.upgrade()).collect();
+                for w in worlds {
+                    let t = w.guard_ticks.fetch_add(1, std::sync::atomic::Ordering::Relaxed) + 1;
+                    let limit = if GUARD_CUTS.load(std::sync::atomic::Ordering::Relaxed) > 0 { GUARD_TICKS_AFTER_A_CUT } else { GUARD_TICKS };
+                    if t >= limit {
+                        w.guard_abort.store(true, std::sync::atomic::Ordering::Relaxed);
+                        w.guard_notify.notify_one();
+                    }
+                }
+            }
+        });
+    });
 }
 
 pub struct RunOpts {
@@ -882,6 +924,48 @@ impl World {
     }
 }
 
+/// worlds of runs in progress in this process (a run that hangs can still be read from outside)
+pub static LIVE_WORLDS: Mutex<Vec<std::sync::Weak<World>>> = Mutex::new(Vec::new());
+
+/// What a run that never returned had recorded so far: the history up to the hang, the filestore
+/// as it is now, no probes. Only safety clauses may be judged on it.
+pub fn partial_records() -> Vec<RunRecord> {
+    let worlds: Vec<Arc<World>> = LIVE_WORLDS.lock().unwrap().iter().filter_map(|w| w.upgrade()).collect();
+    let mut out = vec![];
+    for w in worlds {
+        // the spinning task does not hold the lock (a spin touches no seam); be patient anyway
+        let mut guard = None;
+        for _ in 0..200 {
+            if let Ok(g) = w.inner.try_lock() {
+                guard = Some(g);
+                break;
+            }
+            std::thread::sleep(std::time::Duration::from_millis(10));
+        }
+        let Some(g) = guard else { continue };
+        let nent = w.sc.ents.len();
+        let end_vt = g.events.last().map(|e| e.vt).unwrap_or(0);
+        out.push(RunRecord {
+            sc: w.sc.clone(),
+            events: g.events.clone(),
+            puts: g.puts.clone(),
+            probes: vec![],
+            daemon_alive: vec![true; nent],
+            end_vt,
+            horizon_us: auto_horizon_us(&w.sc),
+            counts: g.counts.clone(),
+            panics: vec![],
+            step_budget_hit: false,
+            sentinel_ok: true,
+            sentinel_note: String::new(),
+            root: w.root.to_string(),
+            fs_final: (0..nent).map(|i| snapshot_tree(w.root.join(format!("jail/e{}", i)).as_std_path())).collect(),
+            fs_initial: vec![],
+        });
+    }
+    out
+}
+
 thread_local! {
     static PUT_REPLIES: std::cell::RefCell<Vec<(usize, oneshot::Receiver<TransactionID>)>> = const { std::cell::RefCell::new(Vec::new()) };
     pub static PANICS: std::cell::RefCell<Vec<String>> = const { std::cell::RefCell::new(Vec::new()) };
@@ -1289,8 +1373,17 @@ pub fn run(sc: &Scenario, root: &Utf8PathBuf, opts: &RunOpts) -> RunRecord {
             sched_notify: Notify::new(),
             root: root.clone(),
             live: std::env::var("VERIF_LIVE").is_ok(),
+            guard_ticks: std::sync::atomic::AtomicU64::new(0),
+            guard_abort: std::sync::atomic::AtomicBool::new(false),
+            guard_notify: Notify::new(),
         });
 
+        start_ticker();
+        {
+            let mut lw = LIVE_WORLDS.lock().unwrap();
+            lw.retain(|w| w.strong_count() > 0);
+            lw.push(Arc::downgrade(&world));
+        }
         // entities
         let mut aux: Vec<JoinHandle<()>> = vec![];
         for (i, e) in sc.ents.iter().enumerate() {
@@ -1428,8 +1521,23 @@ pub fn run(sc: &Scenario, root: &Utf8PathBuf, opts: &RunOpts) -> RunRecord {
 
         // driver loop
         let mut quiet_since: Option<u64> = None;
+        let mut cut_by_guard = false;
         loop {
-            tokio::time::sleep(Duration::from_millis(250)).await;
+            tokio::select! {
+                _ = tokio::time::sleep(Duration::from_millis(250)) => {}
+                _ = world.guard_notify.notified() => {}
+            }
+            if world.guard_abort.load(std::sync::atomic::Ordering::Relaxed) {
+                // five seconds of wall clock and the run has not ended: a livelock at one virtual
+                // instant (the clock only moves when every task is idle). Reported like an exceeded
+                // step budget; what was recorded so far is kept.
+                let mut g = world.inner.lock().unwrap();
+                g.step_budget_hit = true;
+                GUARD_CUTS.fetch_add(1, std::sync::atomic::Ordering::Relaxed);
+                world.push(&mut g, EvKind::Note { msg: "run cut by the wall-clock guard: no progress of virtual time".into() });
+                cut_by_guard = true;
+                break;
+            }
             // collect put replies
             let replies: Vec<(usize, oneshot::Receiver<TransactionID>)> =
                 PUT_REPLIES.with(|r| r.borrow_mut().drain(..).collect());
@@ -1506,6 +1614,10 @@ pub fn run(sc: &Scenario, root: &Utf8PathBuf, opts: &RunOpts) -> RunRecord {
             }
         }
         let mut probes = vec![];
+        if cut_by_guard {
+            // timeouts in virtual time never fire in a livelock
+            keys.clear();
+        }
         for (ent, key) in keys {
             let tx = { world.inner.lock().unwrap().prim_tx[ent].clone() };
             let Some(tx) = tx else { continue };
@@ -1587,6 +1699,9 @@ pub fn run(sc: &Scenario, root: &Utf8PathBuf, opts: &RunOpts) -> RunRecord {
             sched_notify: Notify::new(),
             root: w.root.clone(),
             live: false,
+            guard_ticks: std::sync::atomic::AtomicU64::new(0),
+            guard_abort: std::sync::atomic::AtomicBool::new(false),
+            guard_notify: Notify::new(),
         }
     });
     let inner = world.inner.into_inner().unwrap();
